@@ -72,6 +72,11 @@ enum Defaults {
     Call(usize, [String; 4]),
     /// struct update syntax: `MVals { a: .., n: .., ..MVals::default() }`
     Update(usize, [String; 2]),
+    /// struct update syntax over a non-default base: `MVals { a: .., ..base_vals() }`
+    UpdateBase(usize, String),
+    /// inline defaults whose field expression is not idempotent: `{ n: tick(), a: .. }` - it must
+    /// be evaluated exactly once
+    Counted(usize, String),
 }
 
 struct Arm {
@@ -412,21 +417,41 @@ fn gen_animator(rng: &mut Rng) -> Animator {
                     [value_lit(rng, 0), value_lit(rng, 1), value_lit(rng, 2), value_lit(rng, 3)],
                 )
             }
-            _ => {
-                features.push("default-expression-struct-update");
-                Defaults::Update(rng.usize_below(4), [value_lit(rng, 0), value_lit(rng, 2)])
-            }
+            _ => match rng.below(3) {
+                0 => {
+                    features.push("default-expression-struct-update");
+                    Defaults::Update(rng.usize_below(4), [value_lit(rng, 0), value_lit(rng, 2)])
+                }
+                1 => {
+                    features.push("default-expression-struct-update-base");
+                    Defaults::UpdateBase(rng.usize_below(4), value_lit(rng, 0))
+                }
+                _ => {
+                    features.push("default-inline-non-idempotent");
+                    Defaults::Counted(rng.usize_below(4), value_lit(rng, 0))
+                }
+            },
         },
     };
     let mut free: Vec<usize> = vec![0, 1, 2, 3];
     rng.shuffle(&mut free);
     let n_arms = rng.range(1, 3) as usize;
-    let mut arms = Vec::new();
+    let mut arms: Vec<Arm> = Vec::new();
+    let mut used_states: Vec<usize> = Vec::new();
     for _ in 0..n_arms {
         if free.is_empty() {
             break;
         }
         let mut states = vec![free.pop().unwrap()];
+        // a state already mentioned by an earlier arm may be listed again: like calling `on`
+        // twice, the later arm is the one in force
+        if !used_states.is_empty() && rng.chance(0.12) {
+            let again = used_states[rng.usize_below(used_states.len())];
+            if !states.contains(&again) {
+                states.push(again);
+                features.push("state-in-two-arms");
+            }
+        }
         if !free.is_empty() && rng.chance(0.35) {
             states.push(free.pop().unwrap());
             features.push("multi-state-arm");
@@ -483,6 +508,7 @@ fn gen_animator(rng: &mut Rng) -> Animator {
                 features.push("shuffled-arguments");
             }
         }
+        used_states.extend(states.iter().copied());
         arms.push(Arm {
             states,
             tls,
@@ -556,6 +582,12 @@ fn render_macro(a: &Animator) -> String {
                 v[0], v[1]
             );
         }
+        Defaults::UpdateBase(st, a0) => {
+            let _ = writeln!(s, "    default(MSt::S{st}, MVals {{ a: {a0}, ..base_vals() }}),");
+        }
+        Defaults::Counted(st, a0) => {
+            let _ = writeln!(s, "    default(MSt::S{st}, {{ n: tick(), a: {a0} }}),");
+        }
     }
     let arms: Vec<String> = a
         .arms
@@ -619,6 +651,14 @@ fn render_builder(a: &Animator) -> String {
                 v[0], v[1]
             );
         }
+        Defaults::UpdateBase(_, a0) => {
+            // base_vals() = MVals { a: 9.5, b: -3.25, n: 41, k: 17 }
+            let _ = writeln!(s, "        let default_values = MVals {{ a: {a0}, b: -3.25, n: 41, k: 17 }};");
+        }
+        Defaults::Counted(_, a0) => {
+            // tick() is reset before each twin is built and must be evaluated exactly once: 1
+            let _ = writeln!(s, "        let default_values = MVals {{ a: {a0}, b: 0.0, n: 1, k: 0 }};");
+        }
     }
     s.push_str("        let _ = &default_values;\n");
     s.push_str("        StateAnimatorBuilder::<MSt, MValsTimeline>::new()\n");
@@ -630,7 +670,9 @@ fn render_builder(a: &Animator) -> String {
         | Defaults::Inline(st, _)
         | Defaults::Expr(st, _)
         | Defaults::Call(st, _)
-        | Defaults::Update(st, _) => {
+        | Defaults::Update(st, _)
+        | Defaults::UpdateBase(st, _)
+        | Defaults::Counted(st, _) => {
             let _ = writeln!(defaults, "            .from_state(MSt::S{st})");
         }
         Defaults::None => {}
@@ -688,6 +730,7 @@ fn main() {
         let mac = render_macro(&a);
         let bld = render_builder(&a);
         let _ = writeln!(out, "#[allow(clippy::all)]\nfn pair_{i}() -> (BoxedAnimator, BoxedAnimator) {{");
+        let _ = writeln!(out, "    reset_tick();");
         let _ = writeln!(out, "    let from_macro = {mac};");
         let _ = writeln!(out, "    let from_builder = {bld};");
         let _ = writeln!(out, "    (Box::new(from_macro), Box::new(from_builder))\n}}");
